@@ -12,7 +12,8 @@
 // FileRequired tests and path constants), filtered by calling FileRequired. Trees: one per
 // (extractor, variant in {valid fixture, empty, first half, one bit flipped in the middle}) plus
 // everything at once per variant; the valid trees also carry the plugin's whole testdata
-// directory. Each tree is scanned with scalibr.Scanner.Scan through a real-directory root
+// directory. os/rpm additionally gets SQLite databases built by the harness (WAL / rollback journal,
+// 0, 1 or 3 rows with a header blob go-rpmdb cannot import) since the checkout's sqlite fixtures are stubs. Each tree is scanned with scalibr.Scanner.Scan through a real-directory root
 // and through a virtual root (ScanRoot.Path ""), DirectFS declared in both cases so that the
 // plugins that want host paths run on both, with every offline plugin the declared capability tuple admits
 // (tuples: Linux, Mac, Windows; RunningSystem declared). Oracle: the snapshot of R is identical
@@ -22,7 +23,9 @@
 // '..', '.', the empty segment, 'a', 'out2', 300 x 'a', relative and absolute; regular/dir/symlink/hardlink).
 // Blocks, simplest first: all single entries of the full alphabet x 4 entry points x every
 // configuration; all ordered pairs over the pair alphabet (1 layer and split over 2 layers);
-// chains (two links that only escape together + a write-through into every existing sandbox sibling
+// shapes (layer-less images, empty-tar layers, history-only/missing/mismatched history); spellings
+// (the unpack target nested as S/outer/out and spelled with trailing slash, doubled slash, '.' and
+// '..' segments, relative to the working directory); chains (two links that only escape together + a write-through into every existing sandbox sibling
 // + optionally a link that makes that entry required; all orders, every 1-2 layer split);
 // thorough only: triples = ordered pair + a write-through of one of its links, inserted at every
 // position, every 1-2 layer split. Entry points: image.FromV1Image + CleanUp,
@@ -57,7 +60,11 @@
 //   - where the image's temporary directory lives, as long as it is a directory that did not
 //     exist before the call;
 //   - tar streams archive/tar cannot encode are outside the space (counted as skipped);
-//   - behaviour while Scan/Unpack is still running (only the state after return is compared).
+//   - behaviour while Scan/Unpack is still running (only the state after return is compared);
+//   - scans: a difference that disappears by itself within 5 s after Scan returned (a dependency
+//     closing a handle in its own goroutine) is not counted; waiting can only remove an alarm;
+//   - unpack: whether the target directory ITSELF survives (an emptied target that gets removed is
+//     accepted; its parent and everything else outside must not change).
 package main
 
 import (
@@ -136,6 +143,62 @@ func forEachImageCase(thorough bool, fn func(idx int, c imgCase) bool) []blockIn
 	for _, e := range full {
 		for _, ec := range singleEPs() {
 			emit(imgCase{EP: ec.EP, Cfg: ec.Cfg, Layers: [][]entry{{e}}})
+		}
+	}
+	end()
+
+	// shapes: images without any layer content and with history that does not match the layers
+	begin("shapes: layer-less images, empty-tar layers, history-only / missing / mismatched history x every entry point x every configuration")
+	fa := entry{Name: "a", Kind: "f"}
+	layerSets := [][][]entry{{{}}, {{}, {}}, {{fa}}, {{}, {fa}}, {{fa}, {}}}
+	type shaped struct {
+		shape  string
+		layers [][]entry
+	}
+	shapes := []shaped{{"no-layers", nil}, {"history-only", nil}}
+	for _, sh := range []string{"", "history-missing", "history-empty-entries", "history-extra"} {
+		for _, ls := range layerSets {
+			if sh == "" && len(ls) == 1 && len(ls[0]) == 1 {
+				continue // the plain one-entry image is in the singles
+			}
+			shapes = append(shapes, shaped{sh, ls})
+		}
+	}
+	for _, sh := range shapes {
+		for _, ec := range singleEPs() {
+			if ec.EP == "raw" && sh.shape != "" {
+				continue // the raw tarball carries no image metadata
+			}
+			emit(imgCase{EP: ec.EP, Cfg: ec.Cfg, Layers: sh.layers, Shape: sh.shape})
+		}
+	}
+	end()
+
+	// spellings: the unpack target nested one level (S/outer/out, so that a removed ancestor shows)
+	// and handed over in cleaned and uncleaned, absolute and cwd-relative spellings
+	begin("spellings: every entry over (all names x pair targets) and two-dangling-link images x 7 spellings of the nested target x both unpack entry points")
+	spellEPs := []epCfg{{"raw", 0}, {"raw", 4}, {"raw", 1}, {"squashed", 0}, {"squashed", 4}}
+	if thorough {
+		spellEPs = nil
+		for _, ec := range singleEPs() {
+			if ec.EP == "raw" || ec.EP == "squashed" {
+				spellEPs = append(spellEPs, ec)
+			}
+		}
+	}
+	spellCases := [][][]entry{
+		{{{Name: "usr/share/doc/pkg/copyright", Kind: "s", Target: "../../common-licenses/GPL-3"}, {Name: "etc/alternatives/editor", Kind: "s", Target: "/usr/bin/vim.tiny"}}},
+		{{{Name: "a/b", Kind: "s", Target: ".."}, {Name: "c", Kind: "s", Target: "a/b/.."}}},
+		{{{Name: "a/b", Kind: "s", Target: ".."}}, {{Name: "c/d", Kind: "s", Target: "../a/b/.."}}},
+	}
+	for _, e := range entriesOver(namesFull, targetsQ) {
+		spellCases = append(spellCases, [][]entry{{e}})
+	}
+	for _, ls := range spellCases {
+		for _, sp := range targetSpellings {
+			for _, ec := range spellEPs {
+				emit(imgCase{EP: ec.EP, Cfg: ec.Cfg, Layers: ls, Dir: sp})
+			}
 		}
 	}
 	end()
